@@ -184,12 +184,50 @@ func (x *Xlat) execBlock(st *State, fr *Frame, stmts []ast.Stmt) *Outcomes {
 			}
 			continue
 		}
+		x.anchoredAsserts(cur, fr, s, "before")
 		o := x.execStmt(cur, fr, s)
 		x.absorb(out, o)
 		cur = o.normal
+		if cur != nil && !cur.dead() {
+			x.anchoredAsserts(cur, fr, s, "after")
+		}
 	}
 	out.normal = cur
 	return out
+}
+
+// anchoredAsserts emits the contract's assert clauses attached to this statement (matched by source text prefix).
+func (x *Xlat) anchoredAsserts(st *State, fr *Frame, s ast.Stmt, when string) {
+	if fr.fi == nil || fr.fi.Spec == nil || len(fr.fi.Spec.Asserts) == 0 || fr.lit != nil {
+		return
+	}
+	var txt string
+	for i, a := range fr.fi.Spec.Asserts {
+		if a.When != when || !a.inView(x.view) {
+			continue
+		}
+		if txt == "" {
+			txt = x.src(s)
+		}
+		if !strings.HasPrefix(txt, a.Anchor) {
+			continue
+		}
+		a.Hit = true
+		env := x.newSpecEnvFrame(st, fr, s.End())
+		if when == "before" {
+			env.pos = s.Pos()
+		}
+		g := env.evalBool(a.Expr)
+		nm := fmt.Sprintf("%s/assert.%d", x.curFunc, i+1)
+		if a.Name != "" {
+			nm = fmt.Sprintf("%s/assert[%s]", x.curFunc, a.Name)
+		}
+		if c := x.bump("assert:" + nm); c > 1 {
+			nm = fmt.Sprintf("%s@%d", nm, c)
+		}
+		x.emit(st, nm, "assert", g, s.Pos(), "assertion "+when+" \""+a.Anchor+"\": "+a.Text)
+		st.assume(g)
+	}
 }
 
 func (x *Xlat) execStmt(st *State, fr *Frame, s ast.Stmt) *Outcomes {
